@@ -90,6 +90,8 @@ def cases(draw):
         types.update(ALG_SPECIFIC.get(alg, {}))
     rule = draw(st.sampled_from(["type", "type", "type", "type", "missing", "crit", "unregistered", "strict-off", "custom-ok", "custom-type", "custom-required",
                                  "alg-specific-missing", "b64-no-crit", "unregistered-crit", "custom-crit", "none"]))
+    if kind == "jwe" and direction == "consume" and alg in ALG_SPECIFIC and rule in ("b64-no-crit", "custom-required") and draw(st.booleans()):
+        rule = "alg-specific-missing"      # rules with little to say about this combination make room for the one that has
     pos = "protected" if ser == "compact" else draw(st.sampled_from(["protected", "unprotected"] + (["recipient"] if kind == "jwe" else [])))
     c = {"kind": kind, "dir": direction, "ser": ser, "rfc7797": rfc7797, "alg": alg, "rule": rule, "pos": pos, "seed": draw(st.integers(0, 1000)),
          # a registry with caller-registered parameters is created (and used) first: it must not influence the registry under test
@@ -131,6 +133,10 @@ def cases(draw):
             c["rule"] = "none"
         else:
             c["name"] = draw(st.sampled_from([n for n in ALG_SPECIFIC[alg] if n in ("epk", "p2s", "p2c", "iv", "tag")]))
+            if ser == "general" and alg in ("A128GCMKW", "PBES2-HS256+A128KW") and draw(st.integers(0, 3)) != 0:
+                # the member is missing in the header of the SECOND of two recipients; the first one is complete and decryptable
+                c["second_of_two"] = draw(st.sampled_from(["all", "any", "any"]))
+                c["pos"] = "recipient"
     elif rule == "b64-no-crit":
         if not rfc7797:
             c["rule"] = "none"
@@ -336,7 +342,24 @@ def run_case(c) -> dict:
                 for d in (enc_plan["unprotected"], enc_plan["recipients"][0]["header"]):
                     if isinstance(d, dict):
                         d.pop("alg", None) if d.get("alg") != alg else None
-                if enc_plan["protected"] != plan["protected"] or c["rule"] == "alg-specific-missing" or \
+                if c.get("second_of_two"):
+                    clean = {"alg": alg, "key": gk.key_to_record(rkey), "header": None, "kid": None}
+                    if alg.startswith("PBES2"):
+                        clean["p2c"], clean["p2s"] = 8, "8899aabbccddeeff"
+                    two = copy.deepcopy(enc_plan)
+                    two["recipients"] = [clean, copy.deepcopy(enc_plan["recipients"][0])]
+                    two["place"] = "recipient"
+                    for d in (two["protected"], two["unprotected"]):
+                        if isinstance(d, dict):
+                            d.pop("alg", None)
+                    for r_ in two["recipients"]:
+                        r_["header"] = {**(r_["header"] or {}), "alg": alg}
+                    tok, _ = jweplan.ref_encrypt(two, c["seed"], ("canonical", 0), additions_in_protected=False)
+                    if c["name"] not in (tok["recipients"][1].get("header") or {}):
+                        raise HarnessError(f"member {c['name']} not in the second recipient's header: {tok['recipients'][1]!r}")
+                    del tok["recipients"][1]["header"][c["name"]]
+                    kw = {"registry": jwe.JWERegistry(algorithms=jweplan.ALL_NAMES, verify_all_recipients=c["second_of_two"] == "all")}
+                elif enc_plan["protected"] != plan["protected"] or c["rule"] == "alg-specific-missing" or \
                         (c["rule"] == "type" and c["name"] in ("epk", "p2s", "p2c", "iv", "tag", "apu", "apv", "zip")):
                     # cannot be authentic with this header: mint a valid token, then rewrite the header (probes the header gate only)
                     base = copy.deepcopy(enc_plan)
